@@ -61,6 +61,9 @@ type C06Case struct {
 	StoreIgnoresCtx bool `json:"store_ignores_ctx,omitempty"`
 	// Second round: the application deletes / changes some entries, then a second SendOnce
 	DelIdx []int `json:"del_idx,omitempty"`
+	// More: further rounds, each = that many separate application commits (0 = an upload of an unchanged LMDB, as
+	// the forced interval produces) followed by an upload
+	More []int `json:"more,omitempty"`
 }
 
 func c06Flags(kind string) uint {
@@ -143,6 +146,39 @@ func checkSnapshotAgainstLMDB(f *fault.Bucket, name string, env *lmdb.Env, nativ
 	// DBIs without entries and without flags/name... are all named here, so they must be present
 	if d := wf.Diff(flat); d != "" {
 		return flat, fmt.Errorf("snapshot %s is not the image of the LMDB: %s", name, d)
+	}
+	if !native {
+		// shadow mode: the application's own entries, as committed before the upload, are what the snapshot's live
+		// entries must be (plain and integer-key DBIs; the duplicate-keys mapping is C20's business)
+		dump, err := lm.DumpEnv(env)
+		if err != nil {
+			return flat, err
+		}
+		for _, d := range dump.DBIs {
+			if strings.HasPrefix(d.Name, syncer.SyncDBIPrefix) || d.Flags&lmdb.DupSort != 0 {
+				continue
+			}
+			liveInSnap := map[string][]byte{}
+			for _, fd := range flat.DBIs {
+				if fd.Name == d.Name {
+					for _, e := range fd.Entries {
+						if e.Flags&1 == 0 {
+							liveInSnap[string(e.Key)] = e.Value
+						}
+					}
+				}
+			}
+			for _, e := range d.Entries {
+				v, ok := liveInSnap[string(e.Key)]
+				if !ok || !bytes.Equal(v, e.Val) {
+					return flat, fmt.Errorf("snapshot %s: the application's entry %s/%x = %q, committed before the upload, is in the snapshot as %q (live=%v): not the image of the dumped transaction", name, d.Name, e.Key, e.Val, v, ok)
+				}
+				delete(liveInSnap, string(e.Key))
+			}
+			for k, v := range liveInSnap {
+				return flat, fmt.Errorf("snapshot %s carries a live entry %s/%x = %q that the application's DBI does not hold", name, d.Name, k, v)
+			}
+		}
 	}
 	// name and metadata
 	ni, err := snapshot.ParseName(name)
@@ -306,6 +342,39 @@ func checkC06(c C06Case, o *vcore.Obs) error {
 	if err := send(); err != nil {
 		return fmt.Errorf("second upload: %w", err)
 	}
+	for r, n := range c.More {
+		for j := 0; j < n; j++ {
+			err = env.Update(func(txn *lmdb.Txn) error {
+				dbi, err := txn.OpenDBI("more", lmdb.Create)
+				if err != nil {
+					return err
+				}
+				key, val := []byte(fmt.Sprintf("more-%d-%d", r, j)), []byte(fmt.Sprintf("val-%d-%d", r, j))
+				if j == 1 && r > 0 {
+					key = []byte(fmt.Sprintf("more-%d-0", r-1)) // (or a deletion of something written a round earlier)
+					if c.Native {
+						return txn.Put(dbi, key, model.BuildHeader(uint64(time.Now().UnixNano()), uint64(txn.ID()), 1, nil, nil), 0)
+					}
+					if err := txn.Del(dbi, key, nil); err != nil && !lmdb.IsNotFound(err) {
+						return err
+					}
+					return nil
+				}
+				if c.Native {
+					val = model.BuildHeader(uint64(time.Now().UnixNano()), uint64(txn.ID()), 0, nil, val)
+				}
+				return txn.Put(dbi, key, val, 0)
+			})
+			if err != nil {
+				return fmt.Errorf("harness: %v", err)
+			}
+		}
+		if err := send(); err != nil {
+			return fmt.Errorf("upload %d (after %d further application commits): %w", r+3, n, err)
+		}
+		o.ClassIf(n == 0, "upload-of-an-unchanged-lmdb")
+		o.ClassIf(n == 1, "upload-after-exactly-one-commit")
+	}
 	// third upload, shut down while the dump is under way: whatever reaches the bucket is a complete image
 	// (an upload that reports success in particular), a partial one must never be stored
 	if c.CancelInDump {
@@ -362,6 +431,11 @@ func genC06(t *rapid.T) C06Case {
 	c.Native = rapid.Bool().Draw(t, "native")
 	c.Instance = rapid.SampledFrom([]string{"inst-1", "a", "host.example.com", "under_score", "Üñï", "x y", "db__node_", "a.pb.gz"}).Draw(t, "instance")
 	c.HostFallback = rapid.IntRange(0, 3).Draw(t, "host_fallback") == 0
+	if rapid.Bool().Draw(t, "more?") {
+		for i := rapid.IntRange(1, 4).Draw(t, "nmore"); i > 0; i-- {
+			c.More = append(c.More, rapid.SampledFrom([]int{0, 0, 1, 1, 2, 3}).Draw(t, "more"))
+		}
+	}
 	nd := rapid.IntRange(0, 6).Draw(t, "ndbi")
 	huge := 0
 	for i := 0; i < nd; i++ {
